@@ -157,14 +157,23 @@ pub fn compile_expr(
         ast::Expr::Function(f) => {
             let name = &f.name.to_string();
             if name == "LAG" {
-                let args = &f.args[0];
+                let args = match f.args.as_slice() {
+                    [args] => args,
+                    _ => {
+                        return Err(CompilationError::UnsupportedOperator(
+                            "LAG takes exactly one argument".to_string(),
+                        ))
+                    }
+                };
                 match args {
                     ast::FunctionArg::Unnamed(e) => match e {
                         ast::FunctionArgExpr::Expr(e) => {
                             let function_expr = compile_expr(e, input, output)?;
                             match function_expr {
                                 Expr::Datapoint {
-                                    name, data_type, ..
+                                    name,
+                                    data_type,
+                                    lag: false,
                                 } => Ok(Expr::Datapoint {
                                     name,
                                     data_type,
